@@ -151,10 +151,16 @@ class C10(F.PropCheck):
         if ttype == 3 and pos0 != 10100: tilt0 = 100
         evs = [self.cfg(tilt_ms=tilt_ms, ttype=ttype, margin=rng.choice([-1, 5, 0, 50]), pos0=pos0, tilt0=tilt0, t1=full, t2=full)]
         evs += self.ticks(rng, 30000, 'exact10', 0)
+        tags = ['fb-task', 'type%d' % ttype]
         for _ in range(rng.randrange(1, 3)):
-            evs.append(('TASK', [rng.choice([-1, 0, 100, rng.randrange(0, 101)]), rng.choice([-1, 0, 100, rng.randrange(0, 101)])], b''))
-            evs += self.ticks(rng, (full + tilt_ms) * 1000 * 2 + 2000000, rng.choice(['exact10', 'jitter']), 0, maxn=4500)
-        return evs, ['fb-task', 'type%d' % ttype]
+            if rng.random() < 0.3:
+                # fully (or nearly) closed with the slats (partly) open: the tilt target is reached by driving past the position target
+                # and back; for type 2 the way down is clamped at the lower end stop
+                evs.append(('TASK', [rng.choice([100, 100, 95, 85, rng.randrange(80, 101)]), rng.choice([0, 0, 50, rng.randrange(0, 61)])], b'')); tags.append('closed-slats-open')
+            else:
+                evs.append(('TASK', [rng.choice([-1, 0, 100, rng.randrange(0, 101)]), rng.choice([-1, 0, 100, rng.randrange(0, 101)])], b''))
+            evs += self.ticks(rng, (full + 3 * tilt_ms) * 1000 * 2 + 3000000, rng.choice(['exact10', 'jitter']), 0, maxn=5500)
+        return evs, tags
 
     def fam_random(self, rng, tier):
         """unstructured command sequences for model/implementation correspondence"""
